@@ -27,8 +27,10 @@ import (
 	"github.com/siglens/siglens/pkg/hooks"
 	otsdbwriter "github.com/siglens/siglens/pkg/integrations/otsdb/writer"
 	prometheuswriter "github.com/siglens/siglens/pkg/integrations/prometheus/ingest"
+	"github.com/siglens/siglens/pkg/integrations/loki"
 	"github.com/siglens/siglens/pkg/integrations/splunk"
 	"github.com/siglens/siglens/pkg/lookups"
+	"github.com/siglens/siglens/pkg/otlp"
 	"github.com/siglens/siglens/pkg/scroll"
 	"github.com/siglens/siglens/pkg/segment/writer"
 	"github.com/siglens/siglens/pkg/segment/writer/metrics"
@@ -114,6 +116,18 @@ var routes = []route{
 		func(ctx *fasthttp.RequestCtx) { eswriter.ProcessPutPostSingleDocRequest(ctx, false, 0) }},
 	{"ingest", "POST", elastic + "/{indexName}/_doc/{_id?}", `server_utils.ELASTIC_PREFIX+"/{indexName}/_doc/{_id?}"`, "esPutPostSingleDocHandler(false)",
 		func(ctx *fasthttp.RequestCtx) { eswriter.ProcessPutPostSingleDocRequest(ctx, false, 0) }},
+	{"ingest", "PUT", elastic + "/{indexName}/_create/{_id}", `server_utils.ELASTIC_PREFIX+"/{indexName}/_create/{_id}"`, "esPutPostSingleDocHandler(false)",
+		func(ctx *fasthttp.RequestCtx) { eswriter.ProcessPutPostSingleDocRequest(ctx, false, 0) }},
+	{"ingest", "POST", elastic + "/{indexName}/_create/{_id}", `server_utils.ELASTIC_PREFIX+"/{indexName}/_create/{_id}"`, "esPutPostSingleDocHandler(false)",
+		func(ctx *fasthttp.RequestCtx) { eswriter.ProcessPutPostSingleDocRequest(ctx, false, 0) }},
+	{"ingest", "POST", elastic + "/{indexName}/_update/{_id}", `server_utils.ELASTIC_PREFIX+"/{indexName}/_update/{_id}"`, "esPutPostSingleDocHandler(true)",
+		func(ctx *fasthttp.RequestCtx) { eswriter.ProcessPutPostSingleDocRequest(ctx, true, 0) }},
+	{"ingest", "PUT", elastic + "/{indexName}/_mapping", `server_utils.ELASTIC_PREFIX+"/{indexName}/_mapping"`, "EsPutIndexHandler()", withId(eswriter.ProcessPutIndex)},
+	{"ingest", "PUT", elastic + "/{indexName}/_mapping/{docType}", `server_utils.ELASTIC_PREFIX+"/{indexName}/_mapping/{docType}"`, "EsPutIndexHandler()", withId(eswriter.ProcessPutIndex)},
+	{"ingest", "HEAD", elastic + "/{indexName}", `server_utils.ELASTIC_PREFIX+"/{indexName}"`, "EsPutIndexHandler()", withId(eswriter.ProcessPutIndex)},
+	{"ingest", "POST", "/loki/api/v1/push", `server_utils.LOKI_PREFIX+"/api/v1/push"`, "lokiPostBulkHandler()", withId(loki.ProcessLokiLogsIngestRequest)},
+	{"ingest", "POST", "/otlp/v1/logs", `server_utils.OTLP_PREFIX+"/v1/logs"`, "otlpIngestLogsHandler()", withId(otlp.ProcessLogIngest)},
+	{"ingest", "POST", "/otlp/v1/traces", `server_utils.OTLP_PREFIX+"/v1/traces"`, "otlpIngestTracesHandler()", withId(otlp.ProcessTraceIngest)},
 	{"ingest", "POST", "/services/collector/event", `"/services/collector/event"`, "splunkHecIngestHandler()", withId(splunk.ProcessSplunkHecIngestRequest)},
 	{"ingest", "POST", "/otsdb/api/put", `server_utils.OTSDB_PREFIX+"/api/put"`, "otsdbPutMetricsHandler()", withId(otsdbwriter.PutMetrics)},
 	{"ingest", "POST", "/promql/api/v1/write", `server_utils.PROMQL_PREFIX+"/api/v1/write"`, "prometheusPutMetricsHandler()", withId(prometheuswriter.PutMetrics)},
